@@ -6,7 +6,8 @@ Local Open Scope Z_scope.
 
 (* events: 0 = tick | 1 <motion> = motion command | 2 k = some non-motion command (k names a
    fixed representative: 2 engine, 3 control, 4 target, 5 rotator, 6 module status)
-   | 3 id b0..b7 = received frame *)
+   | 3 id b0..b7 = received frame
+   | 4 <motion> = motion command accepted while another task holds the context lock for 30 ms *)
 Definition other_object (k : Z) : object :=
   match k with
   | 2 => OEngine {| e_demand := 0; e_actual := 0; e_rpm := 1500; e_state := Request |}
@@ -24,6 +25,9 @@ Fixpoint dec_events (fuel : nat) (l : list Z) : option (list c01_event) :=
     | [] => Some []
     | 0 :: t => option_map (cons ETick) (dec_events fuel' t)
     | 1 :: t => match dec_motion t with
+                | Some (m, rest) => option_map (cons (ECmd (OMotion m))) (dec_events fuel' rest)
+                | None => None end
+    | 4 :: t => match dec_motion t with       (* a motion command accepted while another task is inside the context: it waits *)
                 | Some (m, rest) => option_map (cons (ECmd (OMotion m))) (dec_events fuel' rest)
                 | None => None end
     | 2 :: k :: t => option_map (cons (ECmd (other_object k))) (dec_events fuel' t)
